@@ -19,6 +19,8 @@ TEXT = {
          "Trusted: Coq kernel, extraction, harness; numpy's integer promotion/wrap and zarr block access are modelled (wrap32), not verified."),
  "C16": ("Coq theorems bed_decode_encode (an independent bit-level decoder inverts the independent writer for any sample count incl. those not divisible by four with ARBITRARY padding bits, any number of variants), plink_calls_spec (the documented 00/01/10/11 mapping), sample_bit_position (sample s is bits 2(s mod 4) of byte s/4), plink_rows_once (the TRANSLATED chunk_aligned_slices partition the variant rows exactly, chunk-aligned -- from C11); tied by converting generated filesets with plink.convert for chunk sizes x workers 0..8 and comparing all six arrays with the extracted decoder and the bim/fam text.",
          "Trusted: Coq kernel, translator (chunk_aligned_slices), extraction, harness; bed_reader's decoding/text parsing and the BufferedArray flushes are exercised differentially (the latter is modelled under C01/C03)."),
+ "C17": ("Coq theorems laa_sorted_distinct_alts (each call's local alleles are exactly the ascending distinct alternate alleles of its genotype), laa_rows_padded, genotype_index_bijection (the repeat/tril enumeration is the VCF genotype order for every number of alleles), lpl_projection (diploid: LPL[k] = PL[G(la[c_k], la[r_k])] below the call's local genotype count, fill beyond, for any number of local alleles and any padding), lpl_projection_haploid_partial + lpl_haploid_fill_refuted (the open finding F5), ploidy_rejected; the model (Python negative indexing, the all-missing broadcast, masking on b only) is tied to compute_laa_field / compute_lpl_field by an in-process differential over generated genotypes and PL missingness patterns, and end to end by converting generated VCFs with and without local alleles (all other arrays compared bitwise).",
+         "Trusted: Coq kernel, extraction, harness; cyvcf2's PL array conventions. The zero-ALT broadcast case and records carrying their own LAA/LPL are covered by the correspondence run, not by lpl_projection (which assumes >= 1 ALT allele and a Number=G wide PL). Ploidy 1 fill cells: known finding F5."),
 }
 
 def main():
